@@ -60,8 +60,12 @@ func runShard(fn suiteFn, seed uint64, shard, n int, dir string, hangTimeout tim
 		}
 		done := make(chan ret, 1)
 		sub := newRng(r.u64())
+		t0 := time.Now()
 		go func() {
 			f, d := fn(sub, id, res.cnt, emit)
+			if os.Getenv("LZH_TIMING") != "" {
+				fmt.Fprintf(os.Stderr, "timing %s %.2fs\n", id, time.Since(t0).Seconds())
+			}
 			done <- ret{f, d}
 		}()
 		var rt ret
